@@ -808,6 +808,16 @@ impl Runner {
                     obs
                 )),
             ),
+            PathVerdict::DistanceDependent(cstar, cobs) => self.violation(
+                idx,
+                "C17/distance-dependent/PathSearch::process_index",
+                "minimum cost / empty exactly when no usable path exists — with distance conditions an element's cost depends on the path that reaches it, and a node settled through one path is never reconsidered",
+                J::Str(format!("a usable path of cost {cstar} exists")),
+                J::Str(match cobs {
+                    Some(c) => format!("cheapest path explaining {:?} costs {c}", obs),
+                    None => format!("{:?} is not explained by any usable path", obs),
+                }),
+            ),
             PathVerdict::EdgeDistance => self.violation(
                 idx,
                 "C17/edge-distance/PathSearch::expand_edge",
